@@ -770,6 +770,9 @@ class Problem:
         self._maxcv_filter = []
         self._x_filter = []
 
+        # Set the number of evaluations of the problem.
+        self._n_eval = 0
+
         # Set the initial history.
         self._store_history = store_history
         self._history_size = history_size
@@ -808,6 +811,7 @@ class Problem:
         x_full = self.build_x(x)
         fun_val = self._obj(x_full)
         cub_val, ceq_val = self._nonlinear(x_full)
+        self._n_eval += 1
         maxcv_val = self.maxcv(x, cub_val, ceq_val)
         if self._store_history:
             self._fun_history.append(fun_val)
@@ -958,7 +962,7 @@ class Problem:
         int
             Number of function evaluations.
         """
-        return self._obj.n_eval
+        return self._n_eval
 
     @property
     def fun_name(self):
